@@ -546,7 +546,4 @@ structure IsRot90 (f R : Fld) (a b : Nat) : Prop where
   valid : ∀ i, ∃ j, R.valid.get i = f.valid.get j
   nvdim : R.nvdim = f.nvdim
 
-/-- sign a reversal gives the stencil of order `o` -/
-def revSign (o : Nat) : Rat := if o = 1 then -1 else 1
-
 end DFV.C05
